@@ -22,7 +22,7 @@ RunErrs == {"CallStackOverflow", "UnexpectedEndOfInput", "ExitCode", "InvalidIns
             "BadReturn", "Unhashable", "AssertionError", "InvalidUpvalue", "NotClosure"}
 
 Families == {"any", "compile-only", "call-depth", "value-stack", "memory", "budget", "non-function-call", "wrong-type",
-             "int-overflow", "too-many-locals", "missing-native", "deep-nesting", "cyclic-table", "many-globals", "names", "long-strings"}
+             "int-overflow", "too-many-locals", "missing-native", "deep-nesting", "cyclic-table", "many-globals", "names", "long-strings", "missing-operands"}
 
 \* what a family admits: [compile |-> set of compile results, run |-> set of run results]
 \* results are "ok" or an error kind
